@@ -54,6 +54,10 @@ def tlc_with_cfg(ctx, module, cfgtext, name, extra=None):
     return ctx.tlc(module, name + ".cfg", workers=1, extra_files=ef, name=name, timeout=900)
 
 
+# hint sites outside GlGadgets' four inside this code region are probed with generic alternatives after run() (bin/check, common.Ctx.foreign)
+FOREIGN = (("challenger.",), ("testdata",))
+
+
 def run(ctx):
     ctx.rule = ("histories: TLC-simulated sequences of 40 compound challenger operations (element / extension / hash / BN254-hash observations, "
                 "single / multiple / extension / hash squeezes) with seeded symbol values (canonical, edge, value+p); transcripts: every available "
